@@ -260,6 +260,8 @@ def preflight(tier, batch_seed, workers):  # pylint: disable=unused-argument
 def gen_ops(rng, tier):
     maxn = 3 if tier == "quick" else 4
     maxdfa = 3 if tier == "quick" else 4
+    if rng.random() < 0.04:
+        maxn, maxdfa = 4, 4  # swarm: a few histories on the next size up
     names = ["a", "b", "prop_x"][: rng.choice([1, 2, 2, 3])]
     perms = [common.rand_perm(rng, rng.choice([0, 1, 2, 2, 3, 3, 3, 4][: 5 + maxdfa])) for _ in range(rng.choice([1, 2, 3]))]
     nops = rng.randint(3, 12)
